@@ -478,6 +478,8 @@ class VariationalGammaMethod(EstimationMethod):
             )
         if not max_iterations > 0:
             raise ValueError("Maximum number of EP iterations must be greater than 0")
+        if not max_shape >= 1.0:
+            raise ValueError("Maximum shape parameter must be at least 1")
         if self.mutation_rate is None:
             raise ValueError("Variational gamma method requires mutation rate")
 
